@@ -373,10 +373,10 @@ def stats_install(world):
 
     def add_match(ex, st, v, a, k, n, s):
         m = a[0]
-        t = st.env.get("$tally") or SeqV(z3.K(I, z3.IntVal(0)), z3.IntVal(0), None)
-        kk = st.env.get("$tally_key") or SeqV(z3.K(I, z3.IntVal(0)), z3.IntVal(0), None)
+        t = st.env["$tally"]
+        kk = st.env["$tally_key"]
         st.env["$tally"] = SeqV(z3.Store(t.arr, t.n, m.fields["__id__"]), t.n + 1, None)
-        st.env["$tally_key"] = SeqV(z3.Store(kk.arr, kk.n, v.fields["key"].fields["__id__"]), kk.n + 1, None)
+        st.env["$tally_key"] = SeqV(z3.Store(kk.arr, t.n, v.fields["key"].fields["__id__"]), t.n + 1, None)
         return None
 
     def set_rc(ex, st, v, newval, node):
